@@ -78,6 +78,7 @@ def parse(line):
     r["cfg"] = CU.finish_cfg({"ne": r["ne"], "nf": r["nf"], "D": D, "R": R, "fl": fl, "type": tp, "id": idd, "con": con, "related": True,
                               "src": "mjgen(c09) seed=%d step=%d" % (r["seed"], r["step"])})
     r["jar"] = jar
+    r["tbias"] = nums(1)[0] if p < len(t) else 0.0
     return r
 
 
@@ -216,7 +217,7 @@ def oracle(ctx, recs, stats):
         combos[name] = combos.get(name, 0) + 1
         case = {"src": r["cfg"]["src"], "replay": {"seed": r["seed"], "step": r["step"]}, "integrator": INTEG[r["integ"]], "solver": SOLVER[r["solver"]],
                 "cone": "elliptic" if r["cone"] else "pyramidal", "mjDSBL_EULERDAMP": bool(r["eoff"]), "mjDSBL_DAMPER": bool(r["doff"]), "nv": nv, "nefc": r["nefc"],
-                "rows": {"equality": r["ne"], "friction": r["nf"], "elliptic": r["nell"], "pyramidal": r["npyr"], "limit": r["nlim"]}, "niter": r["niter"]}
+                "max |tendon-armature bias|": r["tbias"], "rows": {"equality": r["ne"], "friction": r["nf"], "elliptic": r["nell"], "pyramidal": r["npyr"], "limit": r["nlim"]}, "niter": r["niter"]}
         sig0 = {"integrator": INTEG[r["integ"]], "cone": case["cone"]}
         def viol(site, cls, expected, observed, theorem):
             ctx.violation("impl_violation", case, expected=expected, observed=observed, theorem=theorem, signature=dict(sig0, site=site, **{"class": cls}))
@@ -322,6 +323,10 @@ def run(ctx):
                        "integrator on the forward solution, mj_inverse with invdiscrete, mj_compareFwdInv; non-trivial = converged record with >= 4 rows of >= 2 kinds")
     ctx.cov["records_by_configuration"] = combos
     ctx.cov["converged_records"] = nconv
+    ntb = sum(1 for r in recs if r["tbias"] > 1e-6)
+    ctx.cov["records_with_nonzero_tendon_armature_bias"] = ntb
+    if not rep and ntb < 0.1 * max(1, len(recs)):
+        ctx.broken.append(("oracle", "too few records exercise the tendon-armature bias term (spatial tendon with armature at non-zero velocity)", "%d of %d" % (ntb, len(recs))))
     ctx.cov["records_with"] = {"equality rows": sum(1 for r in recs if r["ne"] > 0), "friction-loss rows": sum(1 for r in recs if r["nf"] > 0),
                                "limit rows": sum(1 for r in recs if r["nlim"] > 0), "pyramidal contact rows": sum(1 for r in recs if r["npyr"] > 0),
                                "elliptic contact rows": sum(1 for r in recs if r["nell"] > 0), "no constraint": sum(1 for r in recs if r["nefc"] == 0)}
